@@ -139,8 +139,9 @@ linepart layout::graph::transform3::part(unsigned dim, const double *val, int le
 		return lp;
 	}
 	if (curr->_flags & TransformLg) {
-		l.min = exp10(floor(curr->limit.min));
-		l.max = exp10(ceil(curr->limit.max));
+		// exact powers for integral exponents
+		l.min = pow(10., floor(curr->limit.min));
+		l.max = pow(10., ceil(curr->limit.max));
 	} else {
 		l = curr->limit;
 	}
